@@ -400,6 +400,8 @@ def run(repo: Repo, rep: Report, tier: str) -> None:
     # ---- the sub-operation's status is looked up in the storage table ---------------------------------------
     from ..delegate import delegate
     rep.rule("status-known", "every storage status the documentation lists is known to the table the sub-operation results are classified with (C28's docs-agreement)")
+    rep.rule("outcome-attributed", "a sub-operation that got no response ends the association, so a late response cannot be taken for the next sub-operation's (C24's failure-path)")
+    delegate(repo, rep, tier, "C24", ("failure-path",), "outcome-attributed", "the outcome of one C-STORE sub-operation is counted (and its SOP Instance UID listed) under another: completed / failed no longer describe the instances they are reported for", only=lambda f: "_handle_no_response" in str(f.get("instance", "")) + str(f.get("key", "")) + str(f.get("function", "")))
     rep.rule("counts-delivered", "the responses that carry the sub-operation counts are sent as response messages whatever the request's Message ID (C20's response-direction / none-not-falsy)")
     delegate(repo, rep, tier, "C20", ("response-direction", "none-not-falsy"), "counts-delivered", "for a C-GET / C-MOVE request with the legal Message ID 0 every Pending and the final response is encoded as a *request* message: no status, no sub-operation counters and no Failed SOP Instance UID List reach the requestor although all sub-operations are performed")
     delegate(repo, rep, tier, "C28", ("docs-agreement",), "status-known", "a C-STORE sub-operation answered with that status misses the lookup and is counted as failed (and listed as failed) although the instance was stored with a warning")
